@@ -337,6 +337,9 @@ func (x *c13Net) prepare(fs []contracts.Contract, stage string) map[string]any {
 		for _, k := range x.committee {
 			ks = append(ks, k.Bytes())
 		}
+		// the committee's multi-signature account authorises and pays: give it GAS first
+		x.exec.ValidatorInvoker(x.exec.NativeHash(x.t, "GasToken")).Invoke(x.t, true, "transfer",
+			x.exec.Validator.ScriptHash(), x.exec.Committee.ScriptHash(), int64(10_0000_0000), nil)
 		x.exec.CommitteeInvoker(x.exec.NativeHash(x.t, "RoleManagement")).Invoke(x.t, stackitem.Null{}, "designateAsRole", int64(noderoles.NeoFSAlphabet), ks)
 		x.addBlock()
 	case strings.HasPrefix(stage, "contracts:"):
